@@ -28,6 +28,8 @@ class Options:
         if value not in allowed_values:
             raise ValueError(f"mxfp_overflow must be one of {allowed_values}, not {value}.")
         self._mxfp_overflow = value
+        # Strings such as 'e4m3mxfp=1000' are converted according to this option, so cached conversions are stale.
+        bitstring.bitstore_helpers.str_to_bitstore.cache_clear()
 
     def __repr__(self) -> str:
         attributes = {attr: getattr(self, attr) for attr in dir(self) if not attr.startswith('_') and not callable(getattr(self, attr))}
@@ -43,6 +45,8 @@ class Options:
 
     def set_lsb0(self, value: bool) -> None:
         self._lsb0 = bool(value)
+        # Strings such as 'ue=3' can only be converted in msb0 mode, so cached conversions are stale.
+        bitstring.bitstore_helpers.str_to_bitstore.cache_clear()
         Bits = bitstring.bits.Bits
         BitArray = bitstring.bitarray_.BitArray
         BitStore = bitstring.bitstore.BitStore
